@@ -4,8 +4,8 @@ use crate::fair_queue::FairQueue;
 use crate::transport::AcceptStopHandle;
 use crate::util::PeerIdentity;
 use crate::{
-    Endpoint, MultiPeerBackend, Socket, SocketEvent, SocketOptions, SocketRecv, SocketType,
-    ZmqError, ZmqMessage, ZmqResult,
+    Endpoint, MultiPeerBackend, Socket, SocketBackend, SocketEvent, SocketOptions, SocketRecv,
+    SocketType, ZmqError, ZmqMessage, ZmqResult,
 };
 
 use async_trait::async_trait;
@@ -20,6 +20,12 @@ pub struct PullSocket {
     backend: Arc<GenericSocketBackend>,
     fair_queue: FairQueue<ZmqFramedRead, PeerIdentity>,
     binds: HashMap<Endpoint, AcceptStopHandle>,
+}
+
+impl Drop for PullSocket {
+    fn drop(&mut self) {
+        self.backend.shutdown();
+    }
 }
 
 #[async_trait]
